@@ -674,6 +674,45 @@ def outside_project(chk):
     shutil.rmtree(d, ignore_errors=True)
 
 
+def where_api_follows_the_working_directory(chk):
+    """conductor.lib.where() answers for the project of the directory the process is in WHEN IT IS CALLED -- the nearest
+    ancestor holding cond_config.toml -- also in one long-lived process that moves between an outer project and a project
+    nested inside it (os.chdir between calls), in every order of visits.  (Seed C17/m: where() remembered the roots it had
+    found and reused any remembered root that is an ancestor of the current directory.)"""
+    import subprocess
+    from common import PY, SRC
+
+    base = new_dir("nested")
+    outer = os.path.join(base, "outer")
+    inner = os.path.join(outer, "pkg", "inner")
+    for root in (outer, inner):
+        os.makedirs(os.path.join(root, "sub"))
+        open(os.path.join(root, "cond_config.toml"), "w").write("disable_git = true\n")
+        open(os.path.join(root, "COND"), "w").write('run_command(name="t", run="true")\n')
+        open(os.path.join(root, "sub", "COND"), "w").write('run_command(name="u", run="true")\n')
+    visits = [os.path.join(outer, "sub"), inner, outer, os.path.join(inner, "sub"), os.path.join(outer, "pkg"), inner]
+    server = ("import os, sys\nimport conductor.lib as L\n"
+              "for d in sys.argv[1:]:\n"
+              "    os.chdir(d)\n"
+              "    try:\n        print('OK ' + str(L.where('//:t', non_existent_ok=True)), flush=True)\n"
+              "    except BaseException as ex:\n        print('ERR ' + type(ex).__name__, flush=True)\n")
+    for order in (visits, visits[::-1]):
+        r = subprocess.run([PY, "-c", server] + order, env=dict(os.environ, PYTHONPATH=SRC), capture_output=True, text=True, timeout=120, cwd=base)
+        got = r.stdout.split("\n")[:len(order)]
+        chk.coverage["evaluations"] += len(order)
+        chk.count("where-api", "visits", len(order))
+        for d, g in zip(order, got):
+            root = inner if (d + "/").startswith(inner + "/") else outer
+            want = "OK " + os.path.join(root, "cond-out", "t.task")
+            if g != want:
+                chk.violation("impl-violation", "one process calling conductor.lib.where('//:t') after os.chdir(%s): got %r, the project of that directory is %s (visits so far: %r)"
+                              % (os.path.relpath(d, base), g, os.path.relpath(root, base), [os.path.relpath(x, base) for x in order[:order.index(d) + 1]]),
+                              {"input": {"part": "where-api", "visits": [os.path.relpath(x, base) for x in order]}, "impl_observation": got, "oracle_verdict": want}, match_key={"part": "where-api"}, size=3)
+                break
+        else:
+            chk.coverage["traces_validated_against_impl"] = chk.coverage.get("traces_validated_against_impl", 0) + len(order)
+
+
 def symlinked_cwd(chk):
     """the working directory is reached through symbolic links and the shell exports the LOGICAL path in $PWD
     (cd link && cond ...): root discovery and include() must behave as from the physical directory"""
@@ -857,6 +896,7 @@ def run(tier, seed, replay=None):
         mixed_history(chk, tasks, chk.rng, label)
     outside_project(chk)
     symlinked_cwd(chk)
+    where_api_follows_the_working_directory(chk)
     git_and_include(chk)
     t4 = time.time()
     if tier == "thorough":
